@@ -6,6 +6,16 @@
 //@crate main
 //@needs arb
 
+// accessor for private state (added lines only; cfg(kani))
+//@append src/image/sub_image.rs
+#[cfg(kani)]
+impl<'a, T> SubImage<'a, T> {
+    pub(crate) fn verif_area(&self) -> Rectangle {
+        self.area
+    }
+}
+//@end
+
 //@append src/lib.rs
 #[cfg(kani)]
 #[doc(hidden)]
